@@ -56,10 +56,18 @@ C03(e) ==
       ok == e.script.fail = "none" /\ e.disc < 0
       r1 == F[1]
       nextServed == Len(F) >= 2 /\ F[2].complete /\ F[2].status = 200
+      (* whatever produced the response (the application or the server's own error page): it does not announce
+         both closing and keeping alive, and what it announces is what happens *)
+      signal == IF e.disc >= 0 \/ Len(F) = 0 THEN {} ELSE
+                   Cl(~(r1.close /\ r1.keepalive), "P03_persistence_signal_is_unambiguous")
+              (* (a failure after the head was sent cannot take back what the head announced: closing wins, C09) *)
+              \cup Cl(~(r1.complete /\ r1.keepalive /\ e.req.version = "1.0") \/ nextServed
+                      \/ (e.script.fail # "none" /\ ~FailBeforeOutput(e.script)), "P03_unannounced_close_means_next_request_is_served")
   IN IF ~ok THEN
         (* a failure after the head was sent: the response can no longer be delimited as announced *)
         (IF e.disc < 0 /\ e.script.fail # "none" /\ ~FailBeforeOutput(e.script)
            THEN Cl(o.closed /\ Len(F) <= 1, "P03_failure_after_the_head_closes_the_connection") ELSE {})
+        \cup signal
      ELSE Cl(o.wire_error = "" /\ o.garbage = 0, "P03_wire_is_a_sequence_of_complete_responses")
      \cup Cl(Len(F) >= 1, "P03_every_request_gets_a_response")
      \cup (IF Len(F) = 0 THEN {} ELSE
@@ -77,7 +85,8 @@ C03(e) ==
                "P03_unannounced_close_means_next_request_is_served")
        \cup Cl(~(e.req.version = "1.0" /\ ~r1.keepalive /\ r1.complete) \/ (o.closed /\ Len(F) = 1), "P03_http10_without_keepalive_is_closed")
        \cup Cl(~(r1.framing = "close") \/ (o.closed /\ r1.close), "P03_close_delimited_body_is_announced_and_closed")
-       \cup Cl(~(r1.framing = "chunked") \/ e.req.version = "1.1", "P03_chunked_only_to_http11"))
+       \cup Cl(~(r1.framing = "chunked") \/ e.req.version = "1.1", "P03_chunked_only_to_http11")
+       \cup signal)
 
 (* ---------------------------------------------------------------- C08 *)
 (* strings are sequences of code points; -1 as the only element = not a str *)
